@@ -301,8 +301,13 @@ func (c *clipperBase) buildPath(op *OutPt, reverse, isOpen bool, path *Path64) b
 
 func (c *clipperBase) executeInternal(ct ClipType, fillRule FillRule) {
 	c.succeeded = true
-	if ct == NoClip {
+	// values outside the enumerations would leave the winding and contribution tests without a
+	// matching case: an unknown clip type clips nothing, an unknown fill rule means the default
+	if ct == NoClip || ct > Xor {
 		return
+	}
+	if fillRule > Negative {
+		fillRule = EvenOdd
 	}
 
 	c.fillRule = fillRule
